@@ -107,6 +107,8 @@ def _harness(c, cfg):
         c.prove("C17:out-of-space-action-rejected-no-later-than-due", rejected_at is not None and rejected_at <= due,
                 info={"rejected_at": rejected_at, "due": due, "action": kind})
         c.reached("rejected")
+        if cfg.get("carry_on") and rejected_at is not None:
+            _carry_on(c, cfg, ep, env, d, inject_at, k)
         return
     c.prove("C17:in-space-action-is-not-rejected", rejected_at is None, info={"rejected_at": rejected_at, "exc": rejected_exc})
     if rejected_at is not None or executed is None:
@@ -168,6 +170,50 @@ def _harness(c, cfg):
     c.reached("executed")
 
 
+def _carry_on(c, cfg, ep, env, d, inject_at, k):
+    """The caller catches the rejection and keeps stepping with valid actions: every valid
+    action that becomes due is still executed exactly once, in order, as the allocation it
+    denotes, and the malformed one is never executed nor rejected a second time."""
+    executed = []
+    extra_rejections = 0
+    n0 = len(env.broker.track_record)
+    while k < ep.N - 1 and not env._done:
+        k += 1
+        try:
+            _, r, done, info = env.step(ep.action(k))
+        except EndOfEpisodeError:
+            c.out_of_scope("ruin (C09)")
+        except (ValueError, TypeError, IndexError, AttributeError, KeyError) as ex:
+            core.reraise_if_proxy(ex)
+            extra_rejections += 1
+            continue
+    tr = env.broker.track_record
+    got = []
+    for i in range(len(tr)):
+        al = {con.symbol: float(w) for con, w in tr[i].allocation.items()}
+        if al:
+            got.append(al)
+    # valid actions submitted at steps 1..K (except inject_at), due d steps later, within the run
+    want = []
+    for j in range(1, k + 1):
+        if j == inject_at or j + d > k:
+            continue
+        a = ep.action(j)
+        if isinstance(ep.space, BoxPortfolio):
+            al = {con.symbol: float(w) for con, w in zip(ep.space_contracts, a) if w != 0 and not isinstance(con, Cash)}
+        else:
+            al = {con.symbol: float(w) for con, w in zip(ep.space_contracts, ep.allocs[int(a)])
+                  if w != 0 and not isinstance(con, Cash)}
+        if al:
+            want.append(al)
+    c.prove("C17:valid-actions-still-executed-once-in-order-after-a-rejection", got == want,
+            info={"executed": got, "expected": want})
+    # once the malformed action has been rejected, steps that submit in-space actions do not fail
+    c.prove("C17:no-further-rejection-of-in-space-steps", extra_rejections == 0,
+            info={"further_rejections": extra_rejections})
+    c.reached("carried-on")
+
+
 def configs(tier):
     out = []
 
@@ -196,6 +242,10 @@ def configs(tier):
     add(N=4, M=0, action="sym", delay=0, inject_at=2, cash_in_space="last")
     add(N=4, M=0, action="sym", delay=1, inject_at=1, cash_in_space="middle", two_contracts=True)
     add(N=4, M=0, action="idx-ok3", delay=0, inject_at=1, space="discrete", cash_in_space="last", two_contracts=True)
+    add(N=5, M=0, action="nan", delay=1, inject_at=2, carry_on=True)
+    add(N=5, M=0, action="too-long", delay=2, inject_at=1, carry_on=True)
+    add(N=5, M=0, action="idx-n", delay=1, inject_at=1, space="discrete", carry_on=True)
+    add(N=4, M=0, action="nan", delay=0, inject_at=2, carry_on=True)
     add(N=4, M=0, action="2d", delay=0, inject_at=1)
     add(N=4, M=0, action="inf", delay=1, inject_at=1)
     add(N=4, M=0, action="idx-np2", delay=0, inject_at=1, space="discrete")
@@ -217,7 +267,7 @@ def configs(tier):
 ANCHORS = ["spaces.py:PortfolioSpace.make_rebalancing_request", "spaces.py:BoxPortfolio.contains",
            "spaces.py:DiscretePortfolio._make_allocation", "env.py:TradingEnv.step",
            "allocation.py:_Allocation.__init__", "rebalancing.py:Rebalancing.__init__"]
-EXPECT_REACH = ["rejected", "executed"]
+EXPECT_REACH = ["rejected", "executed", "carried-on"]
 ASSUMPTIONS = _A + ["Box bounds concrete ([-1,2], [0,1], [-2.5,3]); the probed action vector is symbolic with entries in "
                     "[-5,5] (the solver decides low <= x <= high per entry, incl. the exact bounds); NaN / inf / wrong "
                     "shape / wrong type / invalid index are concrete variants", "prices concrete; earlier actions concrete"]
